@@ -9,10 +9,10 @@ META = {
     "technique": "Lean 4: totality + allocation-bound theorem for the model of the reflection decoder on ARBITRARY bytes (outcomes ok/error/panic/balloon), by mutual induction over all schema types incl. tagged fields, extended by a model of RecordSet.ReadFrom / readFromVersion1 / readFromVersion2 (nested remains, message sizes, batchLength, numRecords, record/key/value/header varints) plugged into the frame decoder; the 'lengths are checked against decoder.remain before allocating' facts (G1-G5 in decode.go/response.go/request.go, 7 record-set guards in record*.go) are re-extracted on every run and the theorems are instantiated at them; exact-frame-accounting theorem (one frame consumed whatever the fields say); counterexample theorems for the unchecked decoder; model<->code correspondence of the outcome class on systematically mutated frames decoded in a memory-limited child process",
     "level_claimed": {
         "category": "proof",
-        "text": "Kernel-checked: for every schema type, every input byte string and every frame size, ReadResponse/decode of the bounded decoder returns a message or an error - no panic outcome and no allocation request larger than the bytes left in the frame (decode_total_bounded, readResponse_total_bounded, readRequest_total_bounded, readResponse_total_with_records, readResponse_consumes_frame_with_records), instantiated at the decoder configuration extracted from the current source. Tied to the code by the extracted guard facts and by decoding ~20k (quick) mutated frames of every response type x version in a child process (ulimit -v, GOMEMLIMIT, timeout) and comparing the outcome class and measured allocation with the model.",
+        "text": "Kernel-checked: for every schema type, every input byte string and every frame size, ReadResponse/decode of the bounded decoder returns a message or an error - no panic outcome and no allocation request beyond the bytes left in the frame nor more than a constant ahead of the bytes actually received (decode_total_bounded, readResponse_total_bounded, readRequest_total_bounded, readResponse_total_with_records, readResponse_consumes_frame_with_records), instantiated at the decoder configuration extracted from the current source. Tied to the code by the extracted guard facts and by decoding ~20k (quick) mutated frames of every response type x version in a child process (ulimit -v, GOMEMLIMIT, timeout) and comparing the outcome class and measured allocation with the model.",
         "design_ref": "DESIGN.md §7 C20",
     },
-    "level_note": "Trusted: Lean kernel + standard axioms; the syntactic guard extractors (go/ast patterns G1-G5, 7 record-set guard patterns); the child-process harness. The model's bound is in terms of the bytes ANNOUNCED by the frame size and not yet consumed (= bytes received when the frame is complete); for a frame whose size prefix itself lies, the extracted fact G8 (arrays are allocated as their elements arrive, theorem source_arrays_grow; fix f565841 of C20-D30) and the lying-size-and-count frames of the check cover the gap - a model of allocation against RECEIVED bytes is not stated. Decompression and CRC are parameters of the record-set model (any function): what a codec allocates while inflating is C16's. CPU time is not modelled (sticky-error short-circuit); hangs are observed by the harness only.",
+    "level_note": "Trusted: Lean kernel + standard axioms; the syntactic guard extractors (go/ast patterns G1-G5, 7 record-set guard patterns); the child-process harness. The model distinguishes `remain` (bytes the size prefix ANNOUNCES) from `inp` (bytes the connection really delivers): a decoder that checks every length against `remain` but allocates the announced amount upfront is `balloon` in the model (Cfg.growing = false; counterexamples lying_count_/lying_length_counterexample = C20-D30/D33), the safety theorems need Guarded = bounded (G1-G5) AND growing (G8 arrays, G9 strings/bytes), both re-extracted; allocation constants (1024 elements / 64 KiB ahead of the data) are the model's abstraction of arrayChunk / readChunk. Decompression and CRC are parameters of the record-set model (any function): what a codec allocates while inflating is C16's. CPU time is not modelled (sticky-error short-circuit); hangs are observed by the harness only.",
 }
 
 MODULE = "KafkaVerif.Props.C20"
